@@ -51,6 +51,13 @@ type sessionSpec struct {
 	CutAt    int64   `json:"cut_at,omitempty"`
 	KillAt   int64   `json:"kill_at,omitempty"`
 	CutBack  int64   `json:"cut_back,omitempty"` // end of the stream from the receiving side at this offset
+	// transport between client and server in the library arrangements: capacity per direction
+	// (0 = rendezvous as io.Pipe, n > 0 = at most n buffered bytes, -1 = unbounded), writes split
+	// into chunks of at most Chunk bytes (0 = unsplit) with up to DelayUs microseconds between them
+	CapC2S  int `json:"cap_c2s,omitempty"`
+	CapS2C  int `json:"cap_s2c,omitempty"`
+	Chunk   int `json:"chunk,omitempty"`
+	DelayUs int `json:"delay_us,omitempty"`
 	// a hand-written sending peer (kind = "hostile")
 	Hostile *hostileSpec `json:"hostile,omitempty"`
 	// a raw daemon-protocol exchange (kind = "daemonreq")
@@ -59,6 +66,8 @@ type sessionSpec struct {
 	PullRaw *pullRawSpec `json:"pull_raw,omitempty"`
 	// a scripted, mutated peer (kind = "hostile2")
 	Hostile2 *hostile2Spec `json:"hostile2,omitempty"`
+	// N simultaneous clients against one daemon (kind = "concurrent")
+	Concurrent *concurrentSpec `json:"concurrent,omitempty"`
 }
 
 type sessionResult struct {
@@ -164,6 +173,14 @@ func runSessionInProcess(sp sessionSpec) (res sessionResult) {
 		res.Parse, res.Outcome = parseObservable(sp.Args), "ok"
 		return res
 	}
+	if sp.Kind == "concurrent" {
+		if err := runConcurrent(sp, &res); err != nil {
+			res.Err, res.Outcome = err.Error(), "error"
+		} else {
+			res.Outcome = "ok"
+		}
+		return res
+	}
 	if sp.Kind == "hostile2" {
 		if err := runHostile2(sp, &res); err != nil {
 			res.Err, res.Outcome = err.Error(), "error"
@@ -267,8 +284,8 @@ func runSessionInProcess(sp sessionSpec) (res sessionResult) {
 			return
 		}
 		srv, _ := rsyncd.NewServer(nil, rsyncd.DontRestrict(), rsyncd.WithStderr(&stderr))
-		c2sR, c2sW := io.Pipe()
-		s2cR, s2cW := io.Pipe()
+		c2sR, c2sW := capPipe(sp.CapC2S, sp.Chunk, sp.DelayUs, sp.ID+"c2s")
+		s2cR, s2cW := capPipe(sp.CapS2C, sp.Chunk, sp.DelayUs, sp.ID+"s2c")
 		var paths []string
 		var sargs []string
 		if sp.Arr == "libpull" {
@@ -392,7 +409,7 @@ type worker struct {
 	cmd    *exec.Cmd
 	in     io.WriteCloser
 	out    *bufio.Reader
-	stderr *bytes.Buffer
+	stderr *syncBuffer
 }
 
 func startWorker() (*worker, error) {
@@ -400,12 +417,12 @@ func startWorker() (*worker, error) {
 	cmd.Env = os.Environ()
 	in, _ := cmd.StdinPipe()
 	outp, _ := cmd.StdoutPipe()
-	var eb bytes.Buffer
-	cmd.Stderr = &eb
+	eb := &syncBuffer{}
+	cmd.Stderr = eb
 	if err := cmd.Start(); err != nil {
 		return nil, err
 	}
-	return &worker{cmd: cmd, in: in, out: bufio.NewReaderSize(outp, 1<<20), stderr: &eb}, nil
+	return &worker{cmd: cmd, in: in, out: bufio.NewReaderSize(outp, 1<<20), stderr: eb}, nil
 }
 
 func (w *worker) kill() {
@@ -487,6 +504,10 @@ func (p *sessionPool) run(sp sessionSpec) sessionResult {
 		}
 		var res sessionResult
 		json.Unmarshal(r.line, &res)
+		if ps := w.stderr.String(); strings.Contains(ps, "DATA RACE") {
+			res.Stderr += "\n[worker process stderr]\n" + tailStr(ps, 8000)
+			w.stderr.Reset()
+		}
 		p.mu.Lock()
 		p.idle = append(p.idle, w)
 		p.mu.Unlock()
@@ -602,3 +623,128 @@ func digest(s string) string {
 func init() {
 	components["_sessionworker"] = func(*run) error { sessionWorkerMain(); return nil }
 }
+
+// ---- transports of a given capacity ----
+
+type rc interface {
+	io.Reader
+	Close() error
+}
+type wc interface {
+	io.Writer
+	Close() error
+}
+
+type boundedPipe struct {
+	mu     sync.Mutex
+	cond   *sync.Cond
+	buf    []byte
+	cap    int
+	closed bool
+}
+
+func (p *boundedPipe) Write(b []byte) (int, error) {
+	p.mu.Lock()
+	defer p.mu.Unlock()
+	n := 0
+	for len(b) > 0 {
+		for len(p.buf) >= p.cap && !p.closed {
+			p.cond.Wait()
+		}
+		if p.closed {
+			return n, io.ErrClosedPipe
+		}
+		k := p.cap - len(p.buf)
+		if k > len(b) {
+			k = len(b)
+		}
+		p.buf = append(p.buf, b[:k]...)
+		b = b[k:]
+		n += k
+		p.cond.Broadcast()
+	}
+	return n, nil
+}
+func (p *boundedPipe) Read(b []byte) (int, error) {
+	p.mu.Lock()
+	defer p.mu.Unlock()
+	for len(p.buf) == 0 {
+		if p.closed {
+			return 0, io.EOF
+		}
+		p.cond.Wait()
+	}
+	n := copy(b, p.buf)
+	p.buf = p.buf[n:]
+	p.cond.Broadcast()
+	return n, nil
+}
+func (p *boundedPipe) Close() error {
+	p.mu.Lock()
+	defer p.mu.Unlock()
+	p.closed = true
+	p.cond.Broadcast()
+	return nil
+}
+
+type chunkWriter struct {
+	w     wc
+	max   int
+	delay int
+	g     *rng
+}
+
+func (c *chunkWriter) Write(b []byte) (int, error) {
+	n := 0
+	for len(b) > 0 {
+		k := 1 + c.g.intn(c.max)
+		if k > len(b) {
+			k = len(b)
+		}
+		m, err := c.w.Write(b[:k])
+		n += m
+		if err != nil {
+			return n, err
+		}
+		b = b[k:]
+		if c.delay > 0 && c.g.chance(10) {
+			time.Sleep(time.Duration(c.g.intn(c.delay)) * time.Microsecond)
+		}
+	}
+	return n, nil
+}
+func (c *chunkWriter) Close() error { return c.w.Close() }
+
+func capPipe(capacity, chunk, delayUs int, tag string) (rc, wc) {
+	var r rc
+	var w wc
+	switch {
+	case capacity == 0:
+		pr, pw := io.Pipe()
+		r, w = pr, pw
+	case capacity < 0:
+		p := newBufPipe()
+		r, w = p, p
+	default:
+		p := &boundedPipe{cap: capacity}
+		p.cond = sync.NewCond(&p.mu)
+		r, w = p, p
+	}
+	if chunk > 0 {
+		w = &chunkWriter{w: w, max: chunk, delay: delayUs, g: newRng(uint64(len(tag))*7919+uint64(capacity+2), tag)}
+	}
+	return r, w
+}
+
+type syncBuffer struct {
+	mu sync.Mutex
+	b  bytes.Buffer
+}
+
+func (s *syncBuffer) Write(p []byte) (int, error) {
+	s.mu.Lock()
+	defer s.mu.Unlock()
+	return s.b.Write(p)
+}
+func (s *syncBuffer) String() string { s.mu.Lock(); defer s.mu.Unlock(); return s.b.String() }
+func (s *syncBuffer) Reset()         { s.mu.Lock(); defer s.mu.Unlock(); s.b.Reset() }
